@@ -1200,11 +1200,39 @@ func (pc *PeerConnection) SetRemoteDescription(desc SessionDescription) error {
 		return err
 	}
 
-	if err := pc.setDescription(&desc, stateChangeOpSetRemote); err != nil {
+	// Whatever can reject the description on its own merits is checked before the
+	// description is applied: a rejected description must leave the signaling state
+	// and the pending/current descriptions untouched.
+	weOffer := desc.Type == SDPTypeAnswer
+	detectedPlanB := descriptionIsPlanB(&desc, pc.log)
+	if pc.configuration.SDPSemantics != SDPSemanticsUnifiedPlan {
+		detectedPlanB = descriptionPossiblyPlanB(&desc)
+	}
+	if !weOffer && !detectedPlanB {
+		for _, media := range desc.parsed.MediaDescriptions {
+			if getMidValue(media) == "" {
+				return errPeerConnRemoteDescriptionWithoutMidValue
+			}
+		}
+	}
+
+	iceDetails, err := extractICEDetails(desc.parsed, pc.log)
+	if err != nil {
 		return err
 	}
 
-	if err := pc.api.mediaEngine.updateFromRemoteDescription(*desc.parsed); err != nil {
+	fingerprint, fingerprintHash := "", ""
+	if !isRenegotiation {
+		if fingerprint, fingerprintHash, err = extractFingerprint(desc.parsed); err != nil {
+			return err
+		}
+	}
+
+	if err = pc.setDescription(&desc, stateChangeOpSetRemote); err != nil {
+		return err
+	}
+
+	if err = pc.api.mediaEngine.updateFromRemoteDescription(*desc.parsed); err != nil {
 		return err
 	}
 
@@ -1229,19 +1257,10 @@ func (pc *PeerConnection) SetRemoteDescription(desc SessionDescription) error {
 
 	var transceiver *RTPTransceiver
 	localTransceivers := append([]*RTPTransceiver{}, pc.GetTransceivers()...)
-	detectedPlanB := descriptionIsPlanB(pc.RemoteDescription(), pc.log)
-	if pc.configuration.SDPSemantics != SDPSemanticsUnifiedPlan {
-		detectedPlanB = descriptionPossiblyPlanB(pc.RemoteDescription())
-	}
-
-	weOffer := desc.Type == SDPTypeAnswer
 
 	if !weOffer && !detectedPlanB { //nolint:nestif
 		for _, media := range pc.RemoteDescription().parsed.MediaDescriptions {
 			midValue := getMidValue(media)
-			if midValue == "" {
-				return errPeerConnRemoteDescriptionWithoutMidValue
-			}
 
 			if media.MediaName.Media == mediaSectionApplication {
 				continue
@@ -1312,11 +1331,6 @@ func (pc *PeerConnection) SetRemoteDescription(desc SessionDescription) error {
 		}
 	}
 
-	iceDetails, err := extractICEDetails(desc.parsed, pc.log)
-	if err != nil {
-		return err
-	}
-
 	if isRenegotiation && pc.iceTransport.haveRemoteCredentialsChange(iceDetails.Ufrag, iceDetails.Password) {
 		// An ICE Restart only happens implicitly for a SetRemoteDescription of type offer
 		if !weOffer {
@@ -1354,11 +1368,6 @@ func (pc *PeerConnection) SetRemoteDescription(desc SessionDescription) error {
 	}
 
 	remoteIsLite := isIceLiteSet(desc.parsed)
-
-	fingerprint, fingerprintHash, err := extractFingerprint(desc.parsed)
-	if err != nil {
-		return err
-	}
 
 	iceRole := ICERoleControlled
 	// If one of the agents is lite and the other one is not, the lite agent must be the controlled agent.
